@@ -145,26 +145,143 @@ Definition wr_path (w : wr) : list string :=
   | WFig i => ["figures"%string; fig_name i]
   end.
 
-(* the plots dictionary: one entry per fingerprint, in order of first use *)
-Fixpoint dedupe (l : list string) : list string :=
+(* the plots dictionary: one entry per fingerprint, in order of first use
+   (self.plots[fingerprint] = ... for every plot that is formatted) *)
+Fixpoint add_all (acc l : list string) : list string :=
   match l with
-  | [] => []
-  | a :: r => a :: filter (fun b => negb (String.eqb a b)) (dedupe r)
+  | [] => acc
+  | x :: r => add_all (if existsb (String.eqb x) acc then acc else acc ++ [x]) r
   end.
+
+Definition uniq (l : list string) : list string := add_all [] l.
 
 Definition pages (r : report) : list page := map page_of (secs [] r).
 
 Definition all_images (r : report) : list string := flat_map p_images (pages r).
 
 Definition writable (r : report) : bool :=
-  levels_ok 0 r && titles_ok (map fig_name (dedupe (all_images r))) [] r.
+  levels_ok 0 r && titles_ok (map fig_name (uniq (all_images r))) [] r.
 
 (* the trace of file writes and the exception that ended it, if any
    (Some 1 = ValueError) *)
 Definition write (r : report) : list wr * option nat :=
   if writable r
-  then (WConf :: WCss :: map WPage (pages r) ++ map WFig (dedupe (all_images r)), None)
+  then (WConf :: WCss :: map WPage (pages r) ++ map WFig (uniq (all_images r)), None)
   else ([], Some 1).
+
+(* ------------------------------------------------------------------ *)
+(* The algorithm of the code, transcribed literally: format_report_rec fills
+   two default-dicts keyed by title chains (insertion-ordered association
+   lists here) and the plots dictionary; check_tree and _write_rec then walk
+   the dictionaries from the root key.  Their recursion follows the
+   dictionary, not a data structure, hence the fuel; format_report refuses
+   sections at depth >= 5, so 6 is enough (C20/Dict.v: the transcription and
+   the tree-based [write] above are the same function).
+   One abstraction is kept: the results of a section are visited before its
+   sub-sections (in the code they alternate in [content]); the entries of a
+   key never depend on that order, only the order of first use of the plots
+   does, which is not observable in the written directory. *)
+
+Inductive titem := THeader (t : string) | TRes (r : result).
+
+Definition ddict (V : Type) := list (key * list V).
+
+(* d.get(k, []) *)
+Fixpoint dget {V} (d : ddict V) (k : key) : list V :=
+  match d with
+  | [] => []
+  | (q, v) :: r => if path_eqb q k then v else dget r k
+  end.
+
+(* d[k].extend(vs) on a defaultdict(list) *)
+Fixpoint dextend {V} (d : ddict V) (k : key) (vs : list V) : ddict V :=
+  match d with
+  | [] => [(k, vs)]
+  | (q, v) :: r => if path_eqb q k then (q, v ++ vs) :: r else (q, v) :: dextend r k vs
+  end.
+
+Record fstate := mk_fstate { f_tree : ddict key; f_text : ddict titem; f_plots : list string }.
+
+(* Rst.format_report_rec(report, tree); None = ValueError of RstFormatter.header *)
+Fixpoint fmt (r : report) (tree : key) (st : fstate) : option fstate :=
+  match r with
+  | Node t rs cs =>
+      if 5 <=? length tree then None
+      else
+        let st1 := mk_fstate (f_tree st)
+                             (dextend (f_text st) tree (THeader t :: map TRes rs))
+                             (add_all (f_plots st) (flat_map r_images rs)) in
+        (fix go (l : list report) (st : fstate) : option fstate :=
+           match l with
+           | [] => Some st
+           | c :: l' =>
+               let sub := tree ++ [title_of c] in
+               match fmt c sub (mk_fstate (dextend (f_tree st) tree [sub]) (f_text st) (f_plots st)) with
+               | None => None
+               | Some st' => go l' st'
+               end
+           end) cs st1
+  end.
+
+Definition sanitizes (t : string) : bool :=
+  match sanitize t with Ok _ => true | Raise _ => false end.
+
+Fixpoint nodup_keys (l : list key) : bool :=
+  match l with
+  | [] => true
+  | a :: r => negb (existsb (path_eqb a) r) && nodup_keys r
+  end.
+
+Definition nonempty {A} (l : list A) : bool := match l with [] => false | _ => true end.
+
+Definition special_files (fignames : list string) (k : key) : list string :=
+  match k with
+  | [] => ["index.rst"%string; "conf.py"%string]
+  | [d] => if String.eqb d ".static" then ["valjean.css"%string]
+           else if String.eqb d "figures" then fignames else []
+  | _ => []
+  end.
+
+(* FormattedRst.check_tree(tree): false = ValueError *)
+Fixpoint dcheck (fuel : nat) (td : ddict key) (fignames : list string) (k : key) : bool :=
+  match fuel with
+  | O => false
+  | S f =>
+      let subs := dget td k in
+      let files := special_files fignames k ++ map (fun s => (last s "" ++ ".rst")%string) subs in
+      forallb (fun s => forallb sanitizes s && negb (path_eqb s ["index"%string])) subs
+      && nodup_keys subs
+      && forallb (fun s => negb (existsb (String.eqb (last s ""%string)) files && nonempty (dget td s))) subs
+      && forallb (dcheck f td fignames) subs
+  end.
+
+Definition text_anchors (l : list titem) : list nat :=
+  flat_map (fun it => match it with TRes r => [r_anchor r] | THeader _ => [] end) l.
+Definition text_images (l : list titem) : list string :=
+  flat_map (fun it => match it with TRes r => r_images r | THeader _ => [] end) l.
+
+(* FormattedRst._write_rec(tree) *)
+Fixpoint dpages (fuel : nat) (st : fstate) (k : key) : list page :=
+  match fuel with
+  | O => []
+  | S f =>
+      let subs := dget (f_tree st) k in
+      mk_page (page_doc k) (text_anchors (dget (f_text st) k)) (map toc_entry subs)
+              (text_images (dget (f_text st) k))
+      :: flat_map (dpages f st) subs
+  end.
+
+Definition FUEL : nat := 6.
+
+(* Rst.format_report followed by FormattedRst.write *)
+Definition dwrite_report (r : report) : list wr * option nat :=
+  match fmt r [] (mk_fstate [] [] []) with
+  | None => ([], Some 1)
+  | Some st =>
+      if dcheck FUEL (f_tree st) (map fig_name (f_plots st)) []
+      then (WConf :: WCss :: map WPage (dpages FUEL st []) ++ map WFig (f_plots st), None)
+      else ([], Some 1)
+  end.
 
 (* ------------------------------------------------------------------ *)
 (* what a cases file evaluates *)
@@ -207,10 +324,11 @@ Fixpoint trace_others (t : list wr) : list (list string) :=
   | _ :: r => trace_others r
   end.
 
-(* the written directory is compared as a map: the last write to a path wins *)
+(* the written directory is compared as a map with the trace of the literal
+   transcription *)
 Definition check_case (c : report * obs) : bool :=
   let '(r, o) := c in
-  match write r, o with
+  match dwrite_report r, o with
   | (t, Some _), ORaised files =>
       match t, files with [], [] => true | _, _ => false end
   | (t, None), OWritten pgs figs others =>
